@@ -67,6 +67,9 @@ def shapes(tier):
     # call history: the prior object was used with another data set (other epochs, values, RV unit) before
     out.append({"nt": 2, "poly": 2, "noff": 0, "K": "normal", "units": "plain", "P_unit": "day", "tref": "default", "rows": 1, "history": "prior_reused"})
     out.append({"nt": 1, "poly": 1, "noff": 0, "K": "default", "units": "sym", "P_unit": "day", "tref": "default", "rows": 1, "slots_only": True, "history": "prior_reused"})
+    # ... or ANOTHER prior with the same parameter names was used before in this process
+    out.append({"nt": 1, "poly": 2, "noff": 0, "K": "default", "units": "plain", "P_unit": "day", "tref": "default", "rows": 1, "slots_only": True, "history": "other_prior_first"})
+    out.append({"nt": 2, "poly": 1, "noff": 1, "K": "default", "units": "plain", "P_unit": "day", "tref": "default", "rows": 1, "slots_only": True, "history": "other_prior_first"})
     out.append({"nt": 1, "poly": 1, "noff": 0, "K": "default", "units": "plain", "P_unit": "sym", "tref": "default", "rows": 1, "slots_only": True})
     return out
 
@@ -431,6 +434,15 @@ def replay(cand):
     s["s"] = (rows[:, 4] * rp["dunit"])
     joker = tj.TheJoker(rp["prior"], rng=np.random.default_rng(0))
     bad = []
+    if shape.get("history") == "other_prior_first":
+        # the call history of the shape: another prior with the same parameter names but other numbers served the data before
+        try:
+            m2 = dict(m)
+            m2["pri"] = {k: [None if x is None else str(Fraction(x) * 3 + 2) for x in v] for k, v in (m.get("pri") or {}).items()}
+            rp0 = build_real_problem(shape, m2)
+            tj.TheJoker(rp0["prior"], rng=np.random.default_rng(1)).marginal_ln_likelihood(rp0["data"], s, in_memory=True)
+        except Exception as e:
+            return {"reproduced": True, "detail": "prelude call (another prior) raised %s: %s" % (type(e).__name__, str(e)[:200])}
     if shape.get("history") == "prior_reused":
         # the call history of the shape: the same prior object first serves the data re-expressed in m/s at shifted epochs
         def other(d):
